@@ -16,10 +16,79 @@ MUTABLE_CTORS = {'dict', 'list', 'set', 'defaultdict', 'OrderedDict', 'deque', '
                  'WeakValueDictionary', 'bytearray'}
 
 
+IN_PLACE_METHODS = {'add', 'update', 'append', 'extend', 'insert', 'remove', 'discard', 'clear',
+                    'pop', 'popitem', 'setdefault', 'sort', 'reverse', 'appendleft', 'popleft',
+                    'intersection_update', 'difference_update', 'symmetric_difference_update',
+                    '__setitem__', '__delitem__', 'move_to_end', 'subtract'}
+
+
+def mutated_names(module):
+    """Module-level names that some function of the module can change: subscript / attribute
+    stores and deletes on the name, in-place methods, augmented assignment, `global` rebinding.
+    A module-level container that is never touched in any of these ways is a constant table."""
+    cached = getattr(module, '_mutated_names', None)
+    if cached is not None:
+        return cached
+    out = set()
+    fns = list(module.functions.values()) + [m for c in module.classes.values()
+                                             for m in c.methods.values()]
+    for fn in fns:
+        local = {n.id for n in ast.walk(fn.node) if isinstance(n, ast.Name)
+                 and isinstance(n.ctx, ast.Store)} | set(fn.params)
+        declared = {n for node in ast.walk(fn.node) if isinstance(node, ast.Global)
+                    for n in node.names}
+        out |= declared
+
+        def is_global(name):
+            return name in module.globals and (name not in local or name in declared)
+        for node in ast.walk(fn.node):
+            tgts = []
+            if isinstance(node, ast.Assign):
+                tgts = node.targets
+            elif isinstance(node, (ast.AugAssign, ast.AnnAssign)):
+                tgts = [node.target]
+            elif isinstance(node, ast.Delete):
+                tgts = node.targets
+            for t in tgts:
+                base = t
+                while isinstance(base, (ast.Subscript, ast.Attribute)):
+                    base = base.value
+                if base is not t and isinstance(base, ast.Name) and is_global(base.id):
+                    out.add(base.id)
+                if isinstance(node, ast.AugAssign) and isinstance(t, ast.Name) and t.id in declared:
+                    out.add(t.id)
+            if isinstance(node, ast.Call) and isinstance(node.func, ast.Attribute) and \
+                    node.func.attr in IN_PLACE_METHODS:
+                base = node.func.value
+                while isinstance(base, (ast.Subscript, ast.Attribute)):
+                    base = base.value
+                if isinstance(base, ast.Name) and is_global(base.id):
+                    out.add(base.id)
+            # the container escapes: passed to a call or returned / stored elsewhere -> assume
+            # it may be mutated there
+            if isinstance(node, ast.Call):
+                for a in list(node.args) + [k.value for k in node.keywords]:
+                    if isinstance(a, ast.Name) and is_global(a.id) and isinstance(
+                            module.globals.get(a.id), (ast.Dict, ast.List, ast.Set)):
+                        f = node.func
+                        fname = f.id if isinstance(f, ast.Name) else getattr(f, 'attr', '')
+                        if fname not in ('len', 'sorted', 'tuple', 'list', 'set', 'frozenset', 'dict',
+                                         'enumerate', 'zip', 'max', 'min', 'sum', 'any', 'all',
+                                         'translate', 'maketrans', 'join', 'isinstance', 'get',
+                                         'format', 'startswith', 'endswith', 'sub', 'compile'):
+                            out.add(a.id)
+    module._mutated_names = out
+    return out
+
+
 def mutable_globals(module):
-    """Module-level names bound to mutable containers, or rebound through `global` statements."""
+    """Module-level names bound to containers that the module can actually change (see
+    `mutated_names`), or rebound through `global` statements.  Never-mutated tables are constants."""
     out = {}
+    changed = mutated_names(module)
     for name, val in module.globals.items():
+        if name not in changed:
+            continue
         if isinstance(val, (ast.Dict, ast.List, ast.Set, ast.ListComp, ast.DictComp, ast.SetComp)):
             out[name] = 'mutable container'
         elif isinstance(val, ast.Call):
